@@ -1,5 +1,6 @@
 """C10 - listed schedules decode exactly; a created schedule reads back unchanged."""
 
+import asyncio
 from .. import env, gen, tcpwork
 from ..fakes import tcp_device as td
 from ..prop import Prop
@@ -46,6 +47,7 @@ class C10(Prop):
     async def setup(self, ctx):
         self.rig = tcpwork.Rig(ctx["shard"])
         self.dev = await self.rig.device()
+        self.dev2 = await self.rig.device()
         from aioswitcher.api import messages
 
         self.messages = messages
@@ -168,6 +170,37 @@ class C10(Prop):
                 resp = await cl.api.get_schedules()
                 self._judge_set(acc, resp.schedules, recs, zone, "api.get_schedules")
                 acc.count("records_parsed_via_api", len(recs))
+                if i % 3 == 0:
+                    # two devices listed at the same time by two API objects of one application (asyncio.gather); the second device
+                    # answers a few loop cycles later (or first): each listing holds its own device's records
+                    recs_a, recs_b = record_set(r.randrange(1, 9)), record_set(r.randrange(1, 9))
+                    served["reply"] = replies.schedules([replies.schedule_record(*x) for x in recs_a], header=r.randbytes(45))
+                    reply_b = replies.schedules([replies.schedule_record(*x) for x in recs_b])
+                    healthy_b = td.auto_responder(rnd=r)
+                    self.dev2.responder = lambda conn, idx, frame: reply_b if frames.classify(frame) == "get_schedules" else healthy_b(conn, idx, frame)
+                    lag = {self.dev: r.randrange(0, 6), self.dev2: r.randrange(0, 6)}
+
+                    def make_gate(dev):
+                        async def gate(conn, idx, frame):
+                            for _ in range(lag[dev] if frames.classify(frame) == "get_schedules" else lag[dev] // 2):
+                                await asyncio.sleep(0)
+                        return gate
+
+                    self.dev.gate, self.dev2.gate = make_gate(self.dev), make_gate(self.dev2)
+                    cl2 = await self.rig.connect(self.dev2, 1, gen.device_id(r), gen.device_key(r))
+                    try:
+                        acc.ev(2)
+                        ra, rb_ = await asyncio.gather(cl.api.get_schedules(), cl2.api.get_schedules(), return_exceptions=True)
+                        for which, res, want in (("first", ra, recs_a), ("second", rb_, recs_b)):
+                            if isinstance(res, BaseException):
+                                acc.violation(f"parse-raised:{type(res).__name__}:concurrent-listing", f"{which} of two concurrent listings ({len(recs_a)} and "
+                                              f"{len(recs_b)} records, reply lags {sorted(lag.values())} cycles) raised {type(res).__name__}: {res}", {"zone": zone})
+                            else:
+                                self._judge_set(acc, res.schedules, want, zone, f"{which} of two concurrent api.get_schedules")
+                        acc.count("concurrent_listings", 2)
+                    finally:
+                        self.dev.gate = self.dev2.gate = None
+                        await cl2.close()
                 # round trips
                 today = clock.local(zone, now).date()
                 created = []
